@@ -17,6 +17,7 @@ from ..properties import (
     OpenVocabProperty, ReferenceProperty, StringProperty, TimestampProperty,
     TypeProperty,
 )
+from ..registration import _unregister_extension
 from .base import _Extension, _Observable, _STIXBase21
 from .common import CustomExtension, GranularMarking
 from .vocab import (
@@ -897,5 +898,11 @@ def CustomObservable(type='x-custom-observable', properties=None, id_contrib_pro
             extension = extension.replace('-', '')
             NameExtension.__name__ = 'ExtensionDefinition' + extension
             cls.with_extension = extension_name
-        return _custom_observable_builder(cls, type, _properties, '2.1', _Observable, id_contrib_props)
+        try:
+            return _custom_observable_builder(cls, type, _properties, '2.1', _Observable, id_contrib_props)
+        except Exception:
+            # The type was refused: don't leave its extension behind.
+            if extension_name:
+                _unregister_extension(extension_name, '2.1')
+            raise
     return wrapper
